@@ -213,6 +213,15 @@ def cases(tier):
                         s2["controls"] = [dict(c, prio=p, name="c%d" % i) for i, (c, p) in enumerate(zip(cs, pr))]
                         s2["id"] = {"skel": skel, "pat": pat, "hyd": hyd, "cv": cv, "controls": s2["controls"]}
                         out.append(s2)
+    # a pressure valve drawn AGAINST the flow (its own logic keeps it shut while it regulates) that a control commands OPEN:
+    # an OPEN valve is a plain open link, whatever its regulating logic would do
+    for vt, pat, thr in itertools.product(("PRV", "PSV"), ("drain", "saw", "fill_drain"), (2.5, 1.5)):
+        s = skeleton("twosrc", pat, H)
+        l = link(s, "p2")
+        s["links"][s["links"].index(l)] = V("p2", "J2", "J1", vt, 20.0)
+        s["controls"] = [{"kind": "level", "node": "T", "rel": "<", "thr": thr, "link": "p2", "value": "OPEN", "prio": 3, "name": "c0"}]
+        s["id"] = {"skel": "twosrc", "pat": pat, "hyd": H, "cv": False, "controls": s["controls"], "reversed_valve": vt}
+        out.append(s)
     return out
 
 
